@@ -94,6 +94,21 @@ func TestC12Modules(t *testing.T) {
 		// pool send to it replaces the record and advances the trace counter past the number of records
 		recordedAbsent := FreshAddr(9001)
 		c.w.App.CfevestingKeeper.AppendVestingAccountTrace(c.ctx, vestingtypes.VestingAccountTrace{Address: recordedAbsent.String()})
+		if rapid.IntRange(0, 9).Draw(t, "bigVestingState") == 0 {
+			// a chain that has been running for a while: more than a hundred owners with a pool each and as many
+			// recorded vesting accounts (exports and imports walk these lists)
+			n := rapid.IntRange(101, 150).Draw(t, "bigVestingStateN")
+			sum := sdk.ZeroInt()
+			for i := 0; i < n; i++ {
+				amt := sdk.NewInt(int64(1000 + i))
+				c.w.App.CfevestingKeeper.SetAccountVestingPools(c.ctx, vestingtypes.AccountVestingPools{Owner: FreshAddr(70000 + i).String(), VestingPools: []*vestingtypes.VestingPool{{
+					Name: "p", VestingType: "vt0", LockStart: T0, LockEnd: T0.Add(time.Duration(1+i) * time.Hour), InitiallyLocked: amt, Withdrawn: sdk.NewInt(int64(i % 7)), Sent: sdk.NewInt(int64(i % 5)), GenesisPool: i%2 == 0}}})
+				sum = sum.Add(amt).SubRaw(int64(i%7 + i%5))
+				c.w.App.CfevestingKeeper.AppendVestingAccountTrace(c.ctx, vestingtypes.VestingAccountTrace{Address: FreshAddr(80000 + i).String(), Genesis: i%3 == 0, FromGenesisPool: i%3 == 1})
+			}
+			FundModule(c.w.App, c.ctx, vestingtypes.ModuleName, sdk.NewCoins(sdk.NewCoin(Denom, sum)))
+			c.classes["more_than_100_owners_and_recorded_accounts"] = true
+		}
 		c.note("init minter=%s distributor=%s", jsonStr(c.mcfg), jsonStr(c.dcfg))
 
 		type step struct {
